@@ -731,3 +731,13 @@ SEEDED["C15"] += [
 BENIGN["C15"] += [
     (CEN, "        cy -= (ny * padding) // 2 - ny // 2\n", "        y_offset = (ny * padding) // 2 - ny // 2\n        cy -= y_offset\n"),
 ]
+
+SEEDED["C01"] += [
+    (SC, ".T * float(self.subap_diameters[wfs_n])\n", ".T * self.subap_diameters[wfs_n]\n", "project.float-positions"),
+]
+BENIGN["C01"] += [
+    (SC, ".T * float(self.subap_diameters[wfs_n])\n", ".T.astype(float) * self.subap_diameters[wfs_n]\n"),
+]
+SEEDED["C17"] += [
+    (ATM, "    Jh = (cn2*(h**(5./3.))).sum(axis)\n", "    Jh = (cn2*(h**(5./3.))).sum(axis-1)\n", "I7"),
+]
